@@ -181,7 +181,7 @@ CLAIMED['C07'] = {
             'builders; the 12 Edit-API methods and the kernel layers are clean on failure (C03 engine); every simplex hash '
             'used by the guards is computed over the same canonical (u64-sorted) key sequence at the index builder and at '
             'every lookup; the kernel reports success only behind neighbour wiring, removal of the old cells and the '
-            'coherent-orientation normalisation, for every k; each context builder refuses dimensions below the size of its move; a negatively oriented new cell is reordered before insertion; the run-time move size handed to the dynamic flip entry is computed from the const dimension alone and the Edit API and the repair loop agree on it per context builder; the k=1 cell split clears the incident-cell pointer of the caller\'s copy and gives the stored vertex one of the new cells; the kernel's result reports the faces and cells it was given. Decides "no mutation before the guards, no unvalidated context, no trace on failure, guards and '
+            'coherent-orientation normalisation, for every k; each context builder refuses dimensions below the size of its move; a negatively oriented new cell is reordered before insertion; the run-time move size handed to the dynamic flip entry is computed from the const dimension alone and the Edit API and the repair loop agree on it per context builder; the k=1 cell split clears the incident-cell pointer of the caller\'s copy and gives the stored vertex one of the new cells; the result of the kernel reports the faces and cells it was given. Decides "no mutation before the guards, no unvalidated context, no trace on failure, guards and '
             'index agree on keys, the structural post-steps are never skipped"; not manifold preservation, counts or invertibility.',
     'note': 'Trusted: as for C03; 4 assumed-infeasible exits in the kernel and known finding F2 (2 exits) are shared with C03.',
     'technique': 'must-pass-through (dominance), construction-site enumeration and rollback dataflow over rustc MIR',
